@@ -679,6 +679,7 @@ struct Extractor {
     }
     if (FD->isOverloadedOperator()) f["op"] = getOperatorSpelling(FD->getOverloadedOperator());
     if (FD->isExternC()) f["externC"] = true;
+    if (FD->isDefaulted()) f["defaulted"] = true;
     json::Array ps;
     for (const ParmVarDecl *P : FD->parameters()) {
       json::Object p;
